@@ -165,6 +165,9 @@ fn parse_codepoints(s: &str) -> Result<ucd_parse::Codepoints, Error> {
         let range = parse_codepoint_range(s)?;
         Ok(ucd_parse::Codepoints::Range(range))
     } else {
+        if !s.chars().all(|c| c.is_ascii_hexdigit()) {
+            return err!("invalid codepoint: '{}'", s);
+        }
         let cp = s.parse()?;
         Ok(ucd_parse::Codepoints::Single(cp))
     }
